@@ -160,6 +160,93 @@ Definition api_file (k : key) (ins : list positive) (inF outF : option positive)
     end
   end.
 
+(* ================= pkg/pdfcpu/io.go : createStagedFile / finishStagedFile ================= *)
+(* createStagedFile(path): openStagedFile (O_RDWR|O_CREATE|O_EXCL, 0666, a random name that does not
+   exist: retried on ErrExist); `if fi, err := os.Stat(path); err == nil { f.Chmod(fi.Mode().Perm()) }`
+   (a failing stat is ignored); on chmod failure errors.Join(err, f.Close(), os.Remove(name)) *)
+Definition create_staged_file (path : positive) (w : world) : outcome positive :=
+  match create_temp mode_new w with
+  | Fail e w => Fail e w
+  | Done t w =>
+    match stat path w with
+    | Fail _ w => Done t w
+    | Done fi w =>
+      match chmod t (fmode fi) w with
+      | Fail e w => let w := world_of (close t w) in
+                    let w := world_of (remove t w) in
+                    Fail e w
+      | Done _ w => Done t w
+      end
+    end
+  end.
+
+(* finishStagedFile(path, w, writeErr, closeInput, replace, remove):
+   closeErr := w.Close(); inputErr := closeInput();
+   if errors.Join(writeErr, closeErr, inputErr) != nil { remove(tmp) (ENOENT tolerated); return err }
+   if replace(tmp, path) fails { remove(tmp); return err }; return nil *)
+Definition finish_staged_file (path t : positive) (writeErr : bool) (input : option positive) (w : world) : ctl * world :=
+  let o := close t w in
+  let w := world_of o in
+  let '(inErr, w) := match input with
+                     | Some i => let o2 := close i w in (failed o2, world_of o2)
+                     | None => (false, w) end in
+  if writeErr || failed o || inErr then (CErr, snd (remove_file t w))
+  else match rename t path w with
+       | Fail _ w => (CErr, snd (remove_file t w))
+       | Done _ w => (COk, w)
+       end.
+
+(* The write path of pkg/pdfcpu:
+     WriteContext (write.go), file path:  file := createStagedFile(fileName);
+         defer func() { err = finishWriteFile(file, fileName, err) }()            — k = KErr, input = None
+     writeReader (io.go): w := createTemp(path); io.Copy(w, r); return finishStagedFile(path, w, writeErr, nil, …)
+                                                                                   — k = KNone, input = None
+     CopyFile(src, dest, overwrite = true): from := os.Open(src); from.Stat(); os.Stat(dest);
+         to := createStagedFile(dest) (on error from.Close()); io.Copy(to, from);
+         return finishStagedFile(dest, to, copyErr, closeInput, …)                 — k = KNone, input = Some src
+   The decision is `decide k r`: ACommit = finishStagedFile with writeErr == nil, ACleanup = with writeErr != nil. *)
+Definition pdf_staged (k : key) (input : option positive) (path : positive)
+           (chunks : list bytes) (fin : ctl) (w : world) : ctl * world :=
+  match (match input with
+         | Some i => match open_rd i w with
+                     | Fail e w => Fail e w
+                     | Done _ w => let w := world_of (stat i w) in
+                                   let w := world_of (stat path w) in
+                                   Done tt w
+                     end
+         | None => Done tt w end) with
+  | Fail _ w => (CErr, w)
+  | Done _ w =>
+    match create_staged_file path w with
+    | Fail _ w => (CErr, match input with Some i => world_of (close i w) | None => w end)
+    | Done t w =>
+        with_defer (body t chunks fin)
+                   (fun r w => match decide k r with
+                               | ACommit => finish_staged_file path t false input w
+                               | ACleanup => finish_staged_file path t true input w
+                               | ANothing => (r, w)
+                               end) w
+    end
+  end.
+
+(* pkg/pdfcpu/io.go writeNewFile(rd, filePath): O_EXCL create (ErrExist: (false, nil), nothing written);
+   io.Copy; Close; on error errors.Join(err, os.Remove(filePath)).  No defer: nothing runs on panic. *)
+Definition write_new_file (path : positive) (chunks : list bytes) (fin : ctl) (w : world) : ctl * world :=
+  match open_excl path w with
+  | Fail EEXIST w => (COk, w)
+  | Fail _ w => (CErr, w)
+  | Done _ w =>
+      with_defer (body path chunks fin)
+                 (fun r w => match r with
+                             | CPanic => (r, w)
+                             | _ => let o := close path w in
+                                    match r, failed o with
+                                    | COk, false => (COk, world_of o)
+                                    | _, _ => (CErr, world_of (remove path (world_of o)))
+                                    end
+                             end) w
+  end.
+
 End Protocols.
 
 (* ---------- entry points for the correspondence harness (extracted) ---------- *)
@@ -171,3 +258,10 @@ Definition fs_to_list (m : gmap positive file) : list (positive * file) := map_t
 Definition run_api (n : option nat) (k : key) (ins : list positive) (inF outF : option positive)
            (init : list (positive * file)) (chunks : list bytes) (fin : ctl) : ctl * world :=
   api_file (plan_of n) fresh_path k ins inF outF chunks fin (W (fs_of_list init) 0 []).
+
+Definition run_pdf (n : option nat) (k : key) (input : option positive) (path : positive)
+           (init : list (positive * file)) (chunks : list bytes) (fin : ctl) : ctl * world :=
+  pdf_staged (plan_of n) fresh_path k input path chunks fin (W (fs_of_list init) 0 []).
+Definition run_newfile (n : option nat) (path : positive)
+           (init : list (positive * file)) (chunks : list bytes) (fin : ctl) : ctl * world :=
+  write_new_file (plan_of n) path chunks fin (W (fs_of_list init) 0 []).
